@@ -112,6 +112,15 @@ CHECKS["C14"] = dict(category="model_checking", text=_OW_TEXT + " C14: SecondRun
     technique="TLA+ run model + immediate second real run per edge + TLC edge validation",
     note="mtime pool: 0, 1, sub-second .999999999, 2^31-1, 2^31, 2^32+1, 2^33", engine="G")
 
+CHECKS["C09"] = dict(category="fault_enumeration",
+    text="TLC model-checks the three delivery pipelines at the granularity of the copia process's write calls (up to Jobs in flight, "
+         "crash before any call, the push direction's remote shell as a surviving process, rerun); the real binary is killed before "
+         "its k-th file-system / pipe write call for the explored k of every scenario in every direction (LD_PRELOAD shim), orphaned "
+         "remote shells are waited for, the destination is snapshotted and the command re-run; TLC decides each record "
+         "(old-or-new bytes only, unplanned paths untouched, rerun = uninterrupted result; local/pull snapshots conform to the logged calls).",
+    design_ref="5 (C09), 4.4", technique="TLA+ crash model with a surviving remote process (TLC) + kill-at-k fault enumeration on the real binary in three directions + TLC record validation",
+    note="quick explores <= 40 evenly spread k (+ first/last 6) per scenario, thorough every k; ssh stand-in = bash", engine="S")
+
 NOT_BUILT = "check not built yet in this round (planned in DESIGN.md section 5)"
 
 
